@@ -209,3 +209,58 @@ pub fn double_faults(seed: &[u8], f: &mut dyn FnMut(&[u8], &'static str)) -> u64
     }
     count
 }
+
+/// Wrong values for a MAC / checksum that a careless comparison may accept: errors that cancel under a folding (XOR / sum)
+/// comparison, permutations of its words, values right only in a prefix or a suffix.
+pub fn mac_patterns(mac: &[u8]) -> Vec<(&'static str, Vec<u8>)> {
+    let n = mac.len();
+    let mut out: Vec<(&'static str, Vec<u8>)> = vec![];
+    // the same mask on two bytes a multiple of four apart
+    for i in 0..n {
+        for j in ((i + 4)..n).step_by(4) {
+            for mask in [0x01u8, 0x80, 0xFF] {
+                let mut m = mac.to_vec();
+                m[i] ^= mask;
+                m[j] ^= mask;
+                out.push(("same-mask-on-two-bytes-a-word-apart", m));
+            }
+        }
+    }
+    // +1 / -1 on two bytes (sums cancel)
+    for i in 0..n.saturating_sub(1) {
+        let mut m = mac.to_vec();
+        m[i] = m[i].wrapping_add(1);
+        m[i + 1] = m[i + 1].wrapping_sub(1);
+        out.push(("plus-one-minus-one", m));
+    }
+    // words swapped / rotated / reversed
+    if n >= 8 {
+        let mut m = mac.to_vec();
+        for k in 0..4 {
+            m.swap(k, 4 + k);
+        }
+        out.push(("first-two-words-swapped", m));
+        let mut m = mac.to_vec();
+        m.rotate_left(4);
+        out.push(("rotated-by-a-word", m));
+        let mut m = mac.to_vec();
+        m.rotate_left(1);
+        out.push(("rotated-by-a-byte", m));
+        let mut m = mac.to_vec();
+        m.reverse();
+        out.push(("reversed", m));
+    }
+    // inverted; right only in the first / last word; all zero
+    out.push(("inverted", mac.iter().map(|b| !b).collect()));
+    for keep in [4usize, 8, n / 2] {
+        let mut m: Vec<u8> = mac.iter().map(|b| !b).collect();
+        m[..keep].copy_from_slice(&mac[..keep]);
+        out.push(("right-only-in-a-prefix", m));
+        let mut m: Vec<u8> = mac.iter().map(|b| !b).collect();
+        m[n - keep..].copy_from_slice(&mac[n - keep..]);
+        out.push(("right-only-in-a-suffix", m));
+    }
+    out.push(("all-zero", vec![0; n]));
+    out.retain(|(_, m)| m != mac);
+    out
+}
